@@ -19,9 +19,33 @@ along with this program.  If not, see <https://www.gnu.org/licenses/>.
 package dns
 
 import (
+	"strings"
+
 	"golang.org/x/net/idna"
 	"golang.org/x/text/unicode/norm"
 )
+
+// ToUnicode is idna.ToUnicode that also recognizes the ACE prefix written in
+// upper or mixed case ("XN--"). Domain names are case-insensitive, but
+// idna.ToUnicode leaves such labels undecoded.
+func ToUnicode(domain string) (string, error) {
+	labels := strings.Split(domain, ".")
+	for i, label := range labels {
+		if len(label) < 4 || !strings.EqualFold(label[:4], "xn--") {
+			continue
+		}
+		// A-labels are ASCII-only. Lower-case only ASCII letters so anything
+		// else is left for idna.ToUnicode to reject.
+		b := []byte(label)
+		for j, ch := range b {
+			if ch >= 'A' && ch <= 'Z' {
+				b[j] = ch + ('a' - 'A')
+			}
+		}
+		labels[i] = string(b)
+	}
+	return idna.ToUnicode(strings.Join(labels, "."))
+}
 
 // SelectIDNA is a convenience function for encoding to/from Punycode.
 //
